@@ -41,6 +41,35 @@ theorem source_removed_only_after_success (k : CompKind) (p : Name) (ct : Nat) (
   rw [h] at this
   exact this.1
 
+/-- **compression_swallows_no_fault**: `Compression.compression` returns normally only if NONE of the
+primitives it performed failed – whatever the kind of failure (the model's fault is any `OSError`, the errno is
+not looked at: ENOSPC, EDQUOT, EIO, EACCES … are all the same `true` bit).  With `archive_roundtrip` this
+gives: a failure at any step of archive creation is reported and leaves the source in place. -/
+theorem compression_swallows_no_fault (k : CompKind) (p : Name) (ct : Nat) (w w' : W) (u : Unit)
+    (h : compression k p ct w = (.ok u, w')) :
+    ∃ consumed, w.faults = consumed ++ w'.faults ∧ ∀ b ∈ consumed, b = false := by
+  have := compression_nf w.faults k p ct w ⟨[], rfl, by intro b hb; cases hb⟩
+  rw [h] at this
+  exact this
+
+/-- contrapositive, in the form the property states it: if some primitive of the compression fails (the first
+`true` bit is reached), the call raises and the source file is untouched -/
+theorem compression_fault_reported (k : CompKind) (p : Name) (ct : Nat) (w : W) (n : Nat)
+    (hfault : w.faults = List.replicate n false ++ [true]) :
+    (∃ e, (compression k p ct w).1 = .error e ∧ (compression k p ct w).2.fs.get p = w.fs.get p) ∨
+    (compression k p ct w).2.faults ≠ [] := by
+  match hm : compression k p ct w with
+  | (.error e, w') =>
+    exact Or.inl ⟨e, rfl, source_removed_only_after_success k p ct w w' e hm⟩
+  | (.ok u, w') =>
+    refine Or.inr ?_
+    obtain ⟨consumed, h1, h2⟩ := compression_swallows_no_fault k p ct w w' u hm
+    intro hnil
+    have hnil' : w'.faults = [] := hnil
+    rw [hnil', List.append_nil] at h1
+    have : true ∈ consumed := by rw [← h1, hfault]; simp
+    exact absurd (h2 true this) (by decide)
+
 /-- **existing_archive_renamed_not_overwritten**: an archive already present under the target name is,
 in every outcome, still available unchanged – under its own name (failure before the rename) or under a
 name that did not exist before (`generate_rename_path`: creation date, then a counter of any length). -/
